@@ -86,6 +86,8 @@ impl FolderMerge for Folder {
 
         if let CheckedPatch::Success(_) = &checked_patch {
             let access_point = self.access_point();
+            #[cfg(sos_verif)]
+            sos_core::verif::probe("folder_sync::merge::log_patched");
             let mut access_point = access_point.lock().await;
 
             for record in diff.patch.iter() {
@@ -251,6 +253,8 @@ impl FolderMerge for Folder {
         let event_log = self.event_log();
         let mut event_log = event_log.write().await;
         event_log.replace_all_events(diff).await?;
+        #[cfg(sos_verif)]
+        sos_core::verif::probe("folder_sync::force_merge::log_replaced");
 
         // Build a new vault
         let vault = FolderReducer::new()
